@@ -119,7 +119,7 @@ func verifMapOrder(text string) {
 var verifC05IntTemplates = []string{
 	"match (n)-[*%d..%d]->(m) return n skip %d limit %d",
 	"match p = (n)-[:MemberOf*%d..%d]->(m) where n.name = 'x' return p skip %d limit %d",
-	"match (n) return n.names[%d..%d] skip %d limit %d",
+	"match (n) where n.count >= %d and n.size in [%d, -1] return n skip %d limit %d",
 	"match p = shortestPath((n)-[*%d..%d]->(m)) return p skip %d limit %d",
 }
 
